@@ -1,4 +1,303 @@
+/-
+  LzmaGen.Gen — generators of format-level material (symbol programs and LZMA2
+  chunk sequences with their reference encodings and meanings).  The Python
+  orchestrator wraps this material into cases (headers, options, mutations,
+  chunkings, readers, sink scripts).  Every random choice derives from one PRNG
+  state so that a run replays exactly from its seed.
+-/
 import LzmaGen.Proto
 namespace Lzma.Gen
-def generate (_kind : String) (_seed _n : Nat) : List String := []
+open Lzma Lzma.Proto
+
+/-- splitmix-style PRNG on 64-bit state -/
+structure Rng where
+  s : UInt64
+  deriving Inhabited
+
+def Rng.next (r : Rng) : Rng × UInt64 :=
+  let s := r.s + 0x9E3779B97F4A7C15
+  let z := s
+  let z := (z ^^^ (z >>> 30)) * 0xBF58476D1CE4E5B9
+  let z := (z ^^^ (z >>> 27)) * 0x94D049BB133111EB
+  ({ s := s }, z ^^^ (z >>> 31))
+
+def Rng.below (r : Rng) (n : Nat) : Rng × Nat :=
+  let (r, v) := r.next
+  (r, if n = 0 then 0 else v.toNat % n)
+
+def Rng.pick [Inhabited α] (r : Rng) (xs : List α) : Rng × α :=
+  let (r, i) := r.below xs.length
+  (r, xs[i]!)
+
+/-- parameters steering a random program -/
+structure ProgCfg where
+  nsyms : Nat
+  dict : Nat            -- dictionary limit in effect
+  alphabet : Nat := 4   -- literal bytes are drawn from `alphabet` values (small ⇒ matched literals differ little)
+  maxLen : Nat := 273
+  eos : Bool := false
+  /-- inject one ill-formed copy (distance beyond history or dictionary) at this symbol index -/
+  badAt : Option Nat := none
+  deriving Repr, Inhabited
+
+def lenChoices : List Nat := [2, 2, 3, 5, 9, 10, 11, 17, 18, 19, 40, 272, 273]
+
+/-- distances covering every slot: small ones, powers of two ± 1, the maximum allowed -/
+def pickDist (r : Rng) (maxd : Nat) : Rng × Nat :=
+  if maxd ≤ 1 then (r, 1)
+  else
+    let (r, k) := r.below 6
+    if k = 0 then (r, 1)
+    else if k = 1 then (r, maxd)
+    else if k = 2 then
+      let (r, e) := r.below (bitLen maxd)
+      let d := 1 <<< e
+      let (r, j) := r.below 3
+      let d := d + j
+      (r, if d = 0 then 1 else if d > maxd then maxd else d)
+    else
+      let (r, d) := r.below maxd
+      (r, d + 1)
+
+def genProgAux (cfg : ProgCfg) : Nat → Nat → Rng → SpecSt → List Sym → Rng × List Sym
+  | 0, _, r, _, acc => (r, acc.reverse)
+  | n+1, i, r, st, acc =>
+    let hl := st.hist.size
+    let maxd := min hl cfg.dict
+    if cfg.badAt = some i then
+      -- one ill-formed copy
+      let (r, k) := r.below 4
+      let bad := if k = 0 then hl + 1 else if k = 1 then cfg.dict + 1 else if k = 2 then 0xFFFFFFFF else max (hl + 1) (cfg.dict + 1) + 7
+      let sym := Sym.mtch bad 2
+      (r, (sym :: acc).reverse)
+    else
+    let (r, k) := r.below 10
+    let (r, sym) : Rng × Sym :=
+      if hl = 0 ∨ k < 4 then
+        let (r, b) := r.below cfg.alphabet
+        let (r, hi) := r.below 8
+        (r, .lit (UInt8.ofNat (if hi = 0 then 255 - b else b * 37 % 256)))
+      else if k < 7 then
+        let (r, d) := pickDist r maxd
+        let (r, l) := r.pick lenChoices
+        (r, .mtch d (min l cfg.maxLen))
+      else if k = 7 then
+        if st.rep0 + 1 ≤ maxd then (r, .shortRep) else (r, .lit 0x41)
+      else
+        let (r, idx) := r.below 4
+        let d := match idx with
+          | 0 => st.rep0 | 1 => st.rep1 | 2 => st.rep2 | _ => st.rep3
+        if d + 1 ≤ maxd then
+          let (r, l) := r.pick lenChoices
+          (r, .rep idx (min l cfg.maxLen))
+        else (r, .lit 0x42)
+    match SpecSt.step cfg.dict st sym with
+    | some (st', _) => genProgAux cfg n (i + 1) r st' (sym :: acc)
+    | none => genProgAux cfg n (i + 1) r st (Sym.lit 0x43 :: acc)   -- unreachable by construction
+
+def genProg (cfg : ProgCfg) (r : Rng) (st : SpecSt := {}) : Rng × List Sym :=
+  let (r, p) := genProgAux cfg cfg.nsyms 0 r st []
+  (r, if cfg.eos then p ++ [.eos] else p)
+
+def symKinds (p : List Sym) : String :=
+  let c := p.foldl (init := (0, 0, 0, 0, 0)) fun (a, b, c, d, e) s =>
+    match s with
+    | .lit _ => (a + 1, b, c, d, e)
+    | .mtch .. => (a, b + 1, c, d, e)
+    | .shortRep => (a, b, c + 1, d, e)
+    | .rep .. => (a, b, c, d + 1, e)
+    | .eos => (a, b, c, d, e + 1)
+  s!"{c.1}/{c.2.1}/{c.2.2.1}/{c.2.2.2.1}/{c.2.2.2.2}"
+
+def symRepr : Sym → String
+  | .lit b => s!"L{b.toNat}"
+  | .mtch d l => s!"M{d},{l}"
+  | .shortRep => "S"
+  | .rep i l => s!"R{i},{l}"
+  | .eos => "E"
+
+def progRepr (p : List Sym) : String :=
+  if p.length ≤ 24 then ",".intercalate (p.map symRepr) else s!"{p.length}syms"
+
+/-- all 225 property triples, cycled -/
+def propsOfIndex (i : Nat) : Props :=
+  let i := i % 225
+  { lc := i % 9, lp := (i / 9) % 5, pb := i / 45 }
+
+/-- material line for `.lzma`-style payloads -/
+def genLzmaLine (seed idx : Nat) : String :=
+  let r : Rng := { s := UInt64.ofNat (seed * 1000003 + idx * 7919 + 1) }
+  let (r, pi) := r.below 225
+  -- bias towards the common and the extreme settings
+  let (r, pk) := r.below 4
+  let props := if pk = 0 then { lc := 3, lp := 0, pb := 2 } else if pk = 1 then propsOfIndex idx else propsOfIndex pi
+  let (r, dk) := r.below 8
+  -- effective dictionary: tiny (raw decoder only), 4096 (header minimum), larger
+  let dict := match dk with
+    | 0 => 1 | 1 => 2 | 2 => 3 | 3 => 7 | 4 => 4096 | 5 => 4096 | 6 => 4097 | _ => 65536
+  let (r, nk) := r.below 6
+  let nsyms := match nk with
+    | 0 => 0 | 1 => 1 | 2 => 5 | 3 => 30 | 4 => 120 | _ => 400
+  let (r, ek) := r.below 2
+  let (r, ak) := r.below 3
+  let cfg : ProgCfg := { nsyms := nsyms, dict := dict, alphabet := if ak = 0 then 2 else if ak = 1 then 4 else 200, eos := ek = 0 }
+  let (_, prog) := genProg cfg r
+  let payload := encodeSyms props dict prog
+  let out := (expand dict prog).getD []
+  s!"mat kind=lzma idx={idx} lc={props.lc} lp={props.lp} pb={props.pb} dict={dict} eos={if cfg.eos then 1 else 0} " ++
+    s!"nsyms={prog.length} kinds={symKinds prog} prog={progRepr prog} payload={hexOfBytes payload} out={hexOfBytes out}"
+
+/-- long outputs that lap a 4096-byte dictionary many times -/
+def genLzmaWrapLine (seed idx : Nat) : String :=
+  let r : Rng := { s := UInt64.ofNat (seed * 1000003 + idx * 104729 + 77) }
+  let (r, pi) := r.below 225
+  let props := propsOfIndex pi
+  let (r, dk) := r.below 3
+  let dict := match dk with
+    | 0 => 4096 | 1 => 4097 | _ => 5000
+  let (r, ek) := r.below 2
+  let cfg : ProgCfg := { nsyms := 700, dict := dict, alphabet := 3, eos := ek = 0 }
+  let (_, prog) := genProg cfg r
+  let payload := encodeSyms props dict prog
+  let out := (expand dict prog).getD []
+  s!"mat kind=lzma idx={idx} lc={props.lc} lp={props.lp} pb={props.pb} dict={dict} eos={if cfg.eos then 1 else 0} " ++
+    s!"nsyms={prog.length} kinds={symKinds prog} prog={progRepr prog} payload={hexOfBytes payload} out={hexOfBytes out}"
+
+/-- a program whose last symbol is an out-of-window copy (C09); `out` is the
+meaning of the well-formed prefix -/
+def genBadLine (seed idx : Nat) : String :=
+  let r : Rng := { s := UInt64.ofNat (seed * 1000003 + idx * 15485863 + 5) }
+  let (r, pk) := r.below 3
+  let props := if pk = 0 then { lc := 3, lp := 0, pb := 2 } else propsOfIndex (idx * 7)
+  let (r, dk) := r.below 7
+  let dict := match dk with
+    | 0 => 1 | 1 => 2 | 2 => 3 | 3 => 8 | 4 => 4096 | 5 => 4097 | _ => 65536
+  let (r, nk) := r.below 5
+  -- positions around the wrap point of the dictionary
+  let n := match nk with
+    | 0 => 0 | 1 => 1 | 2 => 7 | 3 => 40 | _ => 90
+  let cfg : ProgCfg := { nsyms := n + 1, dict := dict, alphabet := 3, badAt := some n }
+  let (_, prog) := genProg cfg r
+  let good := prog.take n
+  let payload := encodeSyms props dict prog
+  let out := (expand dict good).getD []
+  s!"mat kind=lzmabad idx={idx} lc={props.lc} lp={props.lp} pb={props.pb} dict={dict} eos=0 " ++
+    s!"nsyms={prog.length} kinds={symKinds prog} prog={progRepr prog} payload={hexOfBytes payload} out={hexOfBytes out}"
+
+/-! ## LZMA2 chunk sequences -/
+
+inductive Chunk where
+  | raw (resetDict : Bool) (data : Bytes)
+  /-- `cls`: 0 nothing, 1 state reset, 2 state reset + new props, 3 + dict reset -/
+  | lzma (cls : Nat) (props : Props) (prog : List Sym)
+  deriving Repr, Inhabited
+
+/-- encode a chunk sequence with the reference encoder; returns bytes and meaning -/
+def encode2Aux : List Chunk → EncSt → Bytes → Bytes → Bytes × Bytes
+  | [], _, bytes, out => (bytes ++ [0], out)
+  | .raw rd data :: rest, st, bytes, out =>
+    let st := if rd then { st with spec := { st.spec with hist := #[] } } else st
+    let st := { st with spec := { st.spec with hist := st.spec.hist ++ data.toArray } }
+    let n := data.length - 1
+    encode2Aux rest st (bytes ++ [if rd then 1 else 2] ++ beBytes 2 n ++ data) (out ++ data)
+  | .lzma cls props prog :: rest, st, bytes, out =>
+    let st := if cls = 3 then { st with spec := { st.spec with hist := #[] } } else st
+    let st : EncSt :=
+      if cls ≥ 1 then
+        let p := if cls ≥ 2 then props else st.props
+        { props := p, probs := Probs.init (1 <<< (p.lc + p.lp)), spec := { hist := st.spec.hist } }
+      else st
+    let before := st.spec.hist.size
+    let m : M EncSt := do
+      let (s, e) ← encodeProg 0xFFFFFFFF prog st {}
+      let _ ← e.finish
+      pure s
+    match m {} with
+    | (snk, .ok st') =>
+      let payload := snk.out.toList
+      let produced := (st'.spec.hist.toList.drop before)
+      let u := produced.length - 1
+      let p := payload.length - 1
+      let ctrl := 0x80 + cls * 32 + (u >>> 16)
+      let hdr := [UInt8.ofNat ctrl] ++ beBytes 2 (u % 65536) ++ beBytes 2 p ++
+        (if cls ≥ 2 then [UInt8.ofNat (props.lc + 9 * (props.lp + 5 * props.pb))] else [])
+      encode2Aux rest st' (bytes ++ hdr ++ payload) (out ++ produced)
+    | (_, .error _) => (bytes, out)
+
+def encode2 (cs : List Chunk) : Bytes × Bytes :=
+  encode2Aux cs (EncSt.new { lc := 0, lp := 0, pb := 0 }) [] []
+
+def randBytes : Nat → Rng → Bytes → Rng × Bytes
+  | 0, r, acc => (r, acc)
+  | n+1, r, acc =>
+    let (r, b) := r.below 5
+    randBytes n r (UInt8.ofNat (b * 50 + 3) :: acc)
+
+def lzma2Props (i : Nat) : Props :=
+  -- lc + lp ≤ 4
+  let combos : List (Nat × Nat) := [(0,0),(3,0),(4,0),(0,4),(2,2),(1,3),(3,1),(0,1),(1,0)]
+  let (lc, lp) := combos[i % combos.length]!
+  { lc := lc, lp := lp, pb := (i / 9) % 5 }
+
+def genChunks : Nat → Nat → Rng → EncSt → Bool → List Chunk → Rng × List Chunk
+  | 0, _, r, _, _, acc => (r, acc.reverse)
+  | n+1, i, r, st, needProps, acc =>
+    let (r, k) := r.below 10
+    let first := acc.isEmpty
+    if k < 3 then
+      -- uncompressed chunk
+      let (r, rdk) := r.below 3
+      let resetDict := first ∨ rdk = 0
+      let (r, sk) := r.below 6
+      let sz := match sk with
+        | 0 => 1 | 1 => 2 | 2 => 17 | 3 => 300 | 4 => 1 | _ => 40
+      let (r, data) := randBytes sz r []
+      let st := if resetDict then { st with spec := { st.spec with hist := #[] } } else st
+      let st := { st with spec := { st.spec with hist := st.spec.hist ++ data.toArray } }
+      genChunks n (i + 1) r st (needProps ∨ resetDict) (.raw resetDict data :: acc)
+    else
+      let (r, ck) := r.below 4
+      let cls := if first then 3 else if needProps then (if ck = 3 then 3 else 2) else ck
+      let (r, pk) := r.below 40
+      let props := lzma2Props pk
+      let st := if cls = 3 then { st with spec := { st.spec with hist := #[] } } else st
+      let st : EncSt :=
+        if cls ≥ 1 then
+          let p := if cls ≥ 2 then props else st.props
+          { props := p, probs := Probs.init (1 <<< (p.lc + p.lp)), spec := { hist := st.spec.hist } }
+        else st
+      let (r, nk) := r.below 4
+      let nsyms := match nk with
+        | 0 => 1 | 1 => 6 | 2 => 40 | _ => 150
+      let (r, prog) := genProg { nsyms := nsyms, dict := 0xFFFFFFFF, alphabet := 3 } r st.spec
+      -- advance the spec state (probabilities are not needed to pick later symbols)
+      let spec := prog.foldl (init := st.spec) fun s sym =>
+        match SpecSt.step 0xFFFFFFFF s sym with
+        | some (s', _) => s'
+        | none => s
+      let st := { st with spec := spec }
+      genChunks n (i + 1) r st false (.lzma cls (if cls ≥ 2 then props else st.props) prog :: acc)
+
+def chunkRepr : Chunk → String
+  | .raw rd data => s!"U{if rd then 1 else 2}:{data.length}"
+  | .lzma cls p prog => s!"C{cls}:{p.lc}{p.lp}{p.pb}:{prog.length}"
+
+def genLzma2Line (seed idx : Nat) : String :=
+  let r : Rng := { s := UInt64.ofNat (seed * 1000003 + idx * 611953 + 11) }
+  let (r, nk) := r.below 5
+  let n := match nk with
+    | 0 => 0 | 1 => 1 | 2 => 2 | 3 => 4 | _ => 7
+  let (_, cs) := genChunks n 0 r (EncSt.new { lc := 0, lp := 0, pb := 0 }) true []
+  let (bytes, out) := encode2 cs
+  s!"mat kind=lzma2 idx={idx} nchunks={cs.length} chunks={",".intercalate (cs.map chunkRepr)} " ++
+    s!"payload={hexOfBytes bytes} out={hexOfBytes out}"
+
+def generate (kind : String) (seed n : Nat) : List String :=
+  (List.range n).map fun i =>
+    if kind == "lzma" then genLzmaLine seed i
+    else if kind == "lzmawrap" then genLzmaWrapLine seed i
+    else if kind == "lzmabad" then genBadLine seed i
+    else if kind == "lzma2" then genLzma2Line seed i
+    else "bad-kind"
+
 end Lzma.Gen
